@@ -119,9 +119,13 @@ def judge(ctx, res, what, case, min_overlap=1):
         ctx.skip('job not repeatable even single-threaded (no oracle): %s'
                  % what, len(res['unstable']))
     if res['hung']:
-        ctx.violation('%s: threads did not finish (watchdog)' % what, case,
-                      {'rounds_completed': res['rounds']})
-        return True
+        # a wall-clock watchdog is never a verdict (the machine may simply be
+        # loaded): the run is INCONCLUSIVE for this axis (vmon.run reads the
+        # counter)
+        ctx.count('thread_stress_watchdog_fired')
+        ctx.skip('thread stress watchdog fired after %d rounds: %s' % (
+            res['rounds'], what))
+        return False
     if res['mismatches']:
         ctx.violation('%s: outcome under concurrent use differs from the '
                       'outcome alone' % what, case,
